@@ -16,6 +16,9 @@ CLAIMED = {
     ),
 }
 
+for _f in sorted((HERE / "manifest.d").glob("C*.json")):
+    CLAIMED[_f.stem] = json.loads(_f.read_text())
+
 NOT_YET = "machinery for this property is not built yet in this snapshot; it will be claimed once its Lean model, theorems and correspondence check pass on the unchanged tree"
 
 
@@ -40,7 +43,7 @@ def main():
         )
     man = dict(
         version=1,
-        setup_cmd="cd /verif/lean && lake build",
+        setup_cmd="cd /verif && ./setup.sh",
         hooks=dict(
             guard="COGENT3_VERIF",
             enable="no source hooks are needed: every observation point is reached from the harness process (public API, module constants, audit hooks)",
